@@ -8,6 +8,8 @@ pieces themselves are exercised by the bounded stand-ins of pyvc/structural_c18.
 """
 from pyvc.spec import *
 
+GROUP = 'rules'   # contracts of one group use each other's contracts at call sites (pyvc/hooks.py contract_for_call)
+
 
 # ======================================================================================================================
 # 4. dependency checks (process.py / application.py)
